@@ -192,9 +192,11 @@ impl Acc {
         self.capped |= o.capped;
         self.problems.extend(o.problems);
     }
-    fn problem(&mut self, key: String, what: String, replay: Value) {
+    /// `again`: did the re-execution of the case report a violation too? (determinism self-check)
+    fn problem_rechecked(&mut self, again: bool, key: String, what: String, replay: Value) {
         if self.problems.len() < 3 {
-            self.problems.push((key, what, replay));
+            let tag = if again { "[re-executed: reproduces]" } else { "[re-executed: no violation the second time - the scheduler is not deterministic]" };
+            self.problems.push((key, format!("{} {}", what, tag), replay));
         }
     }
 }
@@ -231,7 +233,7 @@ fn sweep_seeds(s0: u64, n: u64, nthreads: usize, deadline: Instant) -> Acc {
                         acc.cases += 1;
                         match guarded(|| det_case(kind, seed, it, tree, &uni, &mut buf)) {
                             Ok(e) => acc.execs += e,
-                            Err(what) => acc.problem(
+                            Err(what) => acc.problem_rechecked(guarded(|| det_case(kind, seed, it, tree, &uni, &mut buf)).is_err(),
                                 format!("abstract-{}:{}:seed{}:it{}", kind.name(), name, seed, it),
                                 format!("{} scheduler, seed {}, {} iterations, abstract program {}: {}", kind.name(), seed, it, name, what),
                                 json!({"kind":"abstract-det","sched":kind.name(),"seed":seed.to_string(),"iterations":it,"tree":tree.to_json()}),
@@ -278,7 +280,7 @@ fn sweep_trees(s0: u64, n: u64, nthreads: usize, deadline: Instant) -> Acc {
                     acc.cases += 1;
                     match guarded(|| det_case(kind, seed, 3, &tree, &uni, &mut buf)) {
                         Ok(e) => acc.execs += e,
-                        Err(what) => acc.problem(
+                        Err(what) => acc.problem_rechecked(guarded(|| det_case(kind, seed, 3, &tree, &uni, &mut buf)).is_err(),
                             format!("abstract-{}:d3b3:{}:seed{}", kind.name(), x, seed),
                             format!("{} scheduler, seed {}, 3 iterations, tree #{} of depth<=3/branching<=3 ({}): {}", kind.name(), seed, x, l.name(), what),
                             json!({"kind":"abstract-det","sched":kind.name(),"seed":seed.to_string(),"iterations":3,"tree":tree.to_json()}),
